@@ -163,6 +163,11 @@ def run(ctx):
     ctx.floor("R-C12-4", "edge_chains", len(chains), 2)
 
     # ------------------------------------------------------------------ R-C12-5
+    # R-C12-6: L_c is counted on get_subgraph(community): that graph must hold every stored edge of the community once
+    from props.c15 import subgraph_edge_source
+
+    ctx.rule("R-C12-6", "the per-community edge term is counted on an induced subgraph whose candidate edges are the whole edge store")
+    subgraph_edge_source(ctx, prog, flows, "R-C12-6", "the intra-community term L_c of the modularity under- or over-counts")
     ctx.rule("R-C12-5", "L_c is taken from the induced subgraph on every path: the variable that holds it has no constant definition")
     n_lc = 0
     for cpath in sorted(prog.reachable_bodies([mo.path])):
